@@ -593,8 +593,14 @@ func (C06) RunGo(line string) string {
 		meta := fixCenterZoom(parsePairs(metaT), rows)
 		ra, err, _ := convertOnce(cliMode, t[1] == "1", meta, rows)
 		if err != nil {
-			if strings.Contains(err.Error(), "no tiles") {
-				return "no-tiles"
+			nonEmpty := 0
+			for _, rw := range rows {
+				if len(rw.blob) > 0 {
+					nonEmpty++
+				}
+			}
+			if nonEmpty == 0 {
+				return "no-tiles" // a database without a non-empty tile cannot be converted, whatever the message says
 			}
 			return "convert-error " + strings.ReplaceAll(trunc(err.Error(), 80), " ", "_")
 		}
